@@ -256,8 +256,10 @@ class Elf(BinFormat):
         else:
             S = sect
         if S:
-            if S.name in self.__sections:
-                return self.__sections[S.name]
+            # section names need not be unique (e.g. COMDAT .group sections):
+            key = (S.name, S.sh_offset)
+            if key in self.__sections:
+                return self.__sections[key]
             if S.sh_type in (SHT_SYMTAB, SHT_DYNSYM):
                 s = self.__read_symtab(S)
             elif S.sh_type == SHT_STRTAB:
@@ -269,7 +271,7 @@ class Elf(BinFormat):
             else:
                 self.__file.seek(S.sh_offset)
                 s = self.__file.read(S.sh_size)
-            self.__sections[S.name] = s
+            self.__sections[key] = s
             return s
 
     def __read_symtab(self, section):
